@@ -100,33 +100,50 @@ def _check_discard(mon, tr, step, prop="C02"):
     if ph["post"][1] != P_pre:
         mon.violation("discard:P-changed", f"{case['variant']}: discarding changed P", case_public(case))
     pess = step.get("pess")
-    for i in sorted(S_pre):
+
+    def certificates(i, S_set, U_set):
+        """three-valued results against every admissible witness for candidate i"""
         if fam == "paveba":
-            wit = [j for j in (S_pre | (U_pre or set())) if j != i]
-            res = [dom3(W, R[i], R[j], 0)[0] for j in wit]
-        elif fam in ("vogp", "epal"):
-            if pess is None:
-                mon.count("pess_not_observed")
-                return
+            wit = [j for j in (S_set | (U_set or set())) if j != i and j in R]
+            return [dom3(W, R[i], R[j], 0)[0] for j in wit]
+        if fam in ("vogp", "epal"):
             if i in pess:
-                res = []  # designs of the pessimistic set are not candidates for elimination
-            else:
-                res = [dom3(W, R[i], R[j], slack_of(tr.alg, fam))[0] for j in pess]
-        else:  # auer
-            ci = (R[i][1] + R[i][2]) / 2
-            bi = (R[i][2] - R[i][1]) / 2
-            res = []
-            for j in S_pre:
-                if j == i:
-                    continue
-                cj = (R[j][1] + R[j][2]) / 2
-                bj = (R[j][2] - R[j][1]) / 2
-                mval = max(0.0, float(np.min(cj - ci)))
-                margin = mval - float(np.max(bi + bj))
-                tau = 1e-12 * (1 + np.abs(ci).max() + np.abs(cj).max() + bi.max())
-                res.append(1 if margin > tau else -1 if margin < -tau else 0)
-                if margin > tau and mval <= float(np.max(bi) + np.max(bj)):
-                    mon.count("auer_certified_only_by_per_objective_sum")  # widths differ across objectives and it matters
+                return []  # designs of the pessimistic set are not candidates for elimination
+            return [dom3(W, R[i], R[j], slack_of(tr.alg, fam))[0] for j in pess if j in R]
+        ci = (R[i][1] + R[i][2]) / 2
+        bi = (R[i][2] - R[i][1]) / 2
+        out = []
+        for j in S_set:
+            if j == i or j not in R:
+                continue
+            cj = (R[j][1] + R[j][2]) / 2
+            bj = (R[j][2] - R[j][1]) / 2
+            mval = max(0.0, float(np.min(cj - ci)))
+            margin = mval - float(np.max(bi + bj))
+            tau = 1e-12 * (1 + np.abs(ci).max() + np.abs(cj).max() + bi.max())
+            out.append(1 if margin > tau else -1 if margin < -tau else 0)
+            if margin > tau and mval <= float(np.max(bi) + np.max(bj)):
+                mon.count("auer_certified_only_by_per_objective_sum")  # widths differ across objectives and it matters
+        return out
+
+    if fam in ("vogp", "epal") and pess is None:
+        mon.count("pess_not_observed")
+        return
+    # designs that were candidates at the start of the step but had already left S when discarding ran (this happens
+    # only if the phases run in another order): the certificate still decides their fate for this round
+    S0, P0, U0 = step["pre"]
+    S1, P1, _ = step["post"]
+    for i in sorted(S0 - S_pre):
+        if i not in R:
+            continue
+        res = certificates(i, S0, U0)
+        if res and any(r == 1 for r in res) and i in (S1 | (P1 or set())):
+            mon.count("must_discard")
+            mon.violation(f"discard:missed:{fam}", f"{case['variant']} round {step['round_pre']}: design {i} had a region certificate at the start of the "
+                          f"round but ended the round in {'P' if i in (P1 or set()) else 'S'}",
+                          {**case_public(case), "round": step["round_pre"], "design": i, "regions": {k: v[1:] for k, v in R.items()}})
+    for i in sorted(S_pre):
+        res = certificates(i, S_pre, U_pre)
         must_discard = any(r == 1 for r in res)
         must_keep = all(r == -1 for r in res)
         observed = i in eliminated
